@@ -1,10 +1,100 @@
 import PyxModel.Sexp
+import PyxModel.Load
+import PyxModel.LoadHeap
+import Driver.LoadCodec
+import Gen.Sharing
 
-/-! driver commands of property C18 (stub: no command yet) -/
+/-! driver commands of property C18
+
+    (c18 op…)   op ::= (input stmt…) | (build) | (mut k m)
+                m  ::= (append-attr "K" "n" ty) | (insert-attr "K" pos "n" ty) | (delete-attr "K" "n")
+                     | (define-unique "K" "I" ("a"…)) | (new "K") | (delete "K" id) | (set-attr "K" id "a" val)
+                     | (relate n s t) | (unrelate n s t)
+    answer: per step (result dump…) — the result of the step and the dump of every metamodel built so far.
+    The sharing parameters of the heap model are read from the generated table Gen/Sharing.lean.
+-/
 namespace Pyx.Driver.C18
-open Pyx Pyx.Sexp
+open Pyx Pyx.Sexp Pyx.Load Pyx.Heap Pyx.Driver.LoadCodec
+
+def genByRef (cls field : String) : Bool :=
+  match Pyx.Gen.Sharing.byRef.find? (fun e => e.1 = cls ∧ e.2.1 = field) with
+  | some e => !e.2.2.isEmpty
+  | none => false
+
+/-- the sharing relation the source has now -/
+def genSharing : Sharing :=
+  ⟨genByRef "CreateClassStmt" "attributes",
+   genByRef "CreateAssociationStmt" "source_keys" || genByRef "CreateAssociationStmt" "target_keys"⟩
+
+def decMut : Sexp → Option Mut
+  | list [sym "append-attr", str k, str n, ty] => (decTy ty).map (Mut.appendAttr k n)
+  | list [sym "insert-attr", str k, int p, str n, ty] => (decTy ty).map (Mut.insertAttr k p.toNat n)
+  | list [sym "delete-attr", str k, str n] => some (.deleteAttr k n)
+  | list [sym "define-unique", str k, str n, as] => (decStrs as).map (Mut.defineUnique k n)
+  | list [sym "new", str k] => some (.new k)
+  | list [sym "delete", str k, int i] => some (.delete k i.toNat)
+  | list [sym "set-attr", str k, int i, str a, v] => (decVal v).map (Mut.setAttr k i.toNat a)
+  | list [sym "relate", int n, int s, int t] => some (.relate n.toNat s.toNat t.toNat)
+  | list [sym "unrelate", int n, int s, int t] => some (.unrelate n.toNat s.toNat t.toNat)
+  | _ => none
+
+def decOp : Sexp → Option Op
+  | list (sym "input" :: ss) => (ss.mapM decStmt).map Op.input
+  | list [sym "build"] => some .build
+  | list [sym "mut", int k, m] => (decMut m).map (Op.mutate k.toNat)
+  | _ => none
+
+def encRes : Res → Sexp
+  | .ok => sym "ok"
+  | .deleteError => sym "DeleteException"
+  | .relateError => sym "RelateException"
+  | .unrelateError => sym "UnrelateException"
+  | .unknownClass => sym "UnknownClassException"
+  | .metaError => sym "no-assoc"
+
+def rowsOfKind (o : Obs) (kind : String) : List (Nat × Row) :=
+  match o.classes.find? (fun c => c.kind = kind) with
+  | some c => c.rows
+  | none => []
+
+def encObs (o : Obs) : Sexp :=
+  list [list (o.classes.map (fun c =>
+          list [str c.kind,
+                list (c.attrs.map (fun p => list [str p.1, encTy p.2])),
+                list (c.indices.map (fun p => list [str p.1, encStrs p.2])),
+                list (c.rows.map (fun r => list [ofNat r.1,
+                  encRow (r.2.filter (fun p => (c.attrs.map (·.1)).contains p.1))]))])),
+        list (o.assocs.map (fun a =>
+          list [str a.stmt.rel, encStrs a.srcKeys, encStrs a.tgtKeys,
+                list ((rowsOfKind o a.stmt.srcKind).map (fun r => list [ofNat r.1, ofNats (a.links.tgt r.1)])),
+                list ((rowsOfKind o a.stmt.tgtKind).map (fun r => list [ofNat r.1, ofNats (a.links.src r.1)]))])),
+        ofNat o.idNext]
+
+def encWorld (w : World) : List Sexp :=
+  (List.range w.metas.length).map (fun k => match observe w k with
+    | some o => encObs o
+    | none => sym "failed")
+
+def stepRes (sh : Sharing) (w : World) : Op → Sexp
+  | .input _ => sym "ok"
+  | .build => match hbuild sh w.stmts with
+    | some _ => sym "ok"
+    | none => sym "error"
+  | .mutate k μ => match w.metas[k]? with
+    | some (some o) => encRes (applyMut w.stmts o μ).2.2
+    | _ => sym "no-target"
+
+def runAll (sh : Sharing) : World → List Op → List Sexp
+  | _, [] => []
+  | w, op :: rest =>
+    let w' := step sh w op
+    list (stepRes sh w op :: encWorld w') :: runAll sh w' rest
 
 def handle : List Sexp → Option Sexp
+  | sym "c18" :: ops =>
+    match ops.mapM decOp with
+    | some ops => some (list (runAll genSharing World.init ops))
+    | none => some (sym "bad-ops")
   | _ => none
 
 end Pyx.Driver.C18
